@@ -196,4 +196,36 @@ example : ∃ m, run Mon.init (overRefundOld.take 6 ++
       initialWindowSize + m.sumWU - m.sumData = m.configured :=
   ⟨_, rfl, rfl, by decide⟩
 
+/-! #### graceful shutdown: DATA on streams opened after the GOAWAY is discarded, and every byte of
+it — payload, padding and the pad-length byte — is charged to and must come back on the
+connection window (corpus/C10/witness.rigs.ops case 4; seeded change c10b refunded `len(f.Data())`). -/
+
+/-- A stream opened after the graceful GOAWAY is charged the full flow-controlled length
+(`flowLen` = payload + padding + 1) on the connection window only. -/
+theorem discarded_after_goaway_charged (m : Mon) (sid : Nat) (len pad : Int) (es : Bool) (st : StreamSt)
+    (hv : ¬ (len < 0 ∨ pad < -1)) (hf : findStream m.streams sid = some st) (hs : st.status = .closed)
+    (hfit : ¬ flowLen len pad > m.conn) :
+    (dataAct m sid len pad es).m.conn = m.conn - flowLen len pad ∧
+    (dataAct m sid len pad es).m.sumData = m.sumData + flowLen len pad ∧
+    (dataAct m sid len pad es).expectFC = none := by
+  unfold dataAct
+  simp [hv, hf, hs, connOnlyAct, hfit]
+
+def goAwayPrefix : List Line :=
+  [⟨.reset 1048576 1048576, [.set 1048576, .wu 0 983041, .other]⟩,
+   ⟨.hdr 1 (-1) false, []⟩,
+   ⟨.shutdown 3, [.goaway 0]⟩,
+   ⟨.hdr 5 (-1) false, []⟩]
+
+/-- 40 padded frames of 100+155+1 bytes, all refunded: accepted, view back to configured. -/
+example : ∃ m, run Mon.init (goAwayPrefix ++ List.replicate 16 ⟨.data 5 100 155 false, []⟩ ++
+      [⟨.data 5 100 155 false, [.wu 0 4352]⟩, ⟨.quiesce, [.other]⟩]) = .ok m ∧ m.dead = false ∧
+      initialWindowSize + m.sumWU - m.sumData = m.configured :=
+  ⟨_, rfl, rfl, by decide⟩
+
+/-- only the payload refunded (17·100 of 17·256 bytes): rejected as a leak. -/
+example : run Mon.init (goAwayPrefix ++ List.replicate 17 ⟨.data 5 100 155 false, []⟩ ++
+      List.replicate 24 ⟨.data 5 100 155 false, []⟩ ++
+      [⟨.data 5 100 155 false, [.wu 0 4200]⟩, ⟨.quiesce, [.other]⟩]) = .error "credit-leak" := rfl
+
 end NetVerif.Proofs.C10
